@@ -141,6 +141,12 @@ var RootSets = map[string][]string{
 	"ab":     {"a", "b"},
 	"s":      {"s"},
 	"absent": {"absent"},
+	// headers whose length prefix is 2 and 3 bytes wide (>=128 and >=16384 bytes), and whose CBOR
+	// array head changes width (24 roots)
+	"r4":   {"a", "b", "c", "s"},
+	"r24":  ManyNames(24),
+	"r100": ManyNames(100),
+	"r400": ManyNames(400),
 }
 var RootSetOrder = []string{"a", "empty", "nil", "ab", "aa", "a0", "s", "absent"}
 
